@@ -27,7 +27,7 @@ EXPLANATION = (
     "NOT decided: that draws validate (hypothesis search + numpy/pandas dtype conversion)."
 )
 LEVEL_RULE = "one obligation per (check strategy, path) / parameter / fallback site"
-FLOORS = {"R1": 14, "R2": 30, "R3": 14, "R4": 1, "R5": 3, "R6": 2, "R7": 3, "R8": 1, "R9": 1, "R10": 1}
+FLOORS = {"R1": 14, "R2": 30, "R3": 14, "R4": 1, "R5": 3, "R6": 2, "R7": 3, "R8": 1, "R9": 1, "R10": 1, "R11": 10, "R12": 15}
 
 PD = "pandera/backends/pandas/builtin_checks.py"
 ST = "pandera/strategies/pandas_strategies.py"
@@ -548,7 +548,71 @@ def r9_row_strategy_keeps_column_checks(ctx, stm):
         ctx.ob("R9", f, "no row strategy is passed to data_frames", True, "column strategies are always used")
 
 
+CLASSIFIER_EXCEPTIONS = {"numeric": "_Number"}   # is_numeric tests the abstract number base (confirmed by reading)
+
+
+def r11_classifiers(ctx):
+    """The strategy dispatch (and the engines) classify a dtype with pandera.dtypes.is_<kind>.  Each classifier tests
+    subtyping of the abstract class of that kind (is_datetime -> DateTime ...): a classifier that tests a wider class
+    (Date for DateTime) routes dtypes of another kind to a strategy that produces values the dtype's own check rejects."""
+    m = ctx.ix.module("pandera/dtypes.py")
+    n = 0
+    for name, f in sorted(m.functions.items()):
+        if not name.startswith("is_") or name == "is_subdtype":
+            continue
+        kind = name[3:]
+        rets = [r.value for r in walk_no_nested(f.node) if isinstance(r, ast.Return) and r.value is not None]
+        calls = [c for r in rets for c in ast.walk(r) if isinstance(c, ast.Call) and callee_last(c) == "is_subdtype"]
+        if not calls:
+            continue
+        n += 1
+        tested = [txt(c.args[1]) if len(c.args) > 1 else txt(kw(c, "parent")) for c in calls]
+        want = CLASSIFIER_EXCEPTIONS.get(kind)
+        ok = all((t == want) if want else (t.lower() == kind) for t in tested) and len(rets) == 1
+        ctx.ob("R11", f, f"dtypes.{name} tests subtyping of the `{kind}` class", ok,
+               f"is_subdtype(..., {', '.join(tested)})" if ok else
+               f"tests {tested}: dtypes of another kind are classified as {kind} and sent to its strategy / engine branch "
+               "(e.g. date-only columns generated as Timestamps, which their own dtype check rejects)", f.loc(f.node))
+    if n < 10:
+        raise AnalysisError(f"pandera/dtypes.py: only {n} is_<kind> classifiers found")
+
+
+STRATEGY_FORWARDS = {"columns", "checks", "unique", "index", "indexes", "nullable", "name", "dtype"}
+
+
+def r12_strategy_forwarding(ctx):
+    """Schema.strategy()/example() hand the declared constraints to the strategy builders unchanged: every keyword of a
+    `st.<kind>_strategy(...)` call that names a schema attribute receives exactly `self.<attribute>` (a truncated
+    `unique`, a filtered `checks` list ... yields examples the schema rejects)."""
+    from ..util import Expander
+    ix = ctx.ix
+    n = 0
+    for mp in ("pandera/api/pandas/container.py", "pandera/api/pandas/array.py", "pandera/api/pandas/components.py"):
+        m = ix.module(mp)
+        for f in m.all_functions:
+            if f.cls is None or f.name not in ("strategy", "strategy_component"):
+                continue
+            ex = Expander(f.node)
+            for c in calls_in(f.node):
+                if not (callee_last(c).endswith("_strategy") and isinstance(c.func, ast.Attribute)):
+                    continue
+                for k in c.keywords:
+                    if k.arg not in STRATEGY_FORWARDS:
+                        continue
+                    n += 1
+                    v = ex.expand(k.value)
+                    ok = isinstance(v, ast.Attribute) and isinstance(v.value, ast.Name) and v.value.id == "self" and v.attr == k.arg
+                    ctx.ob("R12", f, f"{f.cls.name}.{f.name}: `{k.arg}` is forwarded to {callee_last(c)} as declared", ok,
+                           f"{k.arg}=self.{k.arg}" if ok else
+                           f"`{k.arg}={txt(v)[:50]}` is not the declared `self.{k.arg}`: the generated data is built from a modified constraint "
+                           "while validation uses the declared one", f.loc(c))
+    if n < 15:
+        raise AnalysisError(f"strategy forwarding: only {n} forwarded schema attributes found")
+
+
 def run(ctx):
+    r11_classifiers(ctx)
+    r12_strategy_forwarding(ctx)
     from ..defassign import check_modules
     check_modules(ctx, "R10", ('pandera/strategies/',), "escapes example() / strategy()")
     ix = ctx.ix
